@@ -153,6 +153,9 @@ def _work(units):
     setattr(builtins, S, lambda *a, **k: calls.append(1) or "")
     try:
         for v in units:
+            before = None
+            if isinstance(v, (tuple, list)):  # ("__after__", poison text, literal): the poison text is compiled before every step
+                before, v = v[1], v[2]
             for pos, a, env in shapes(v):
                 for q in ('"', "'"):
                     if q in v or "\n" in v:
@@ -164,9 +167,13 @@ def _work(units):
                         continue
                     acc.add("programs")
                     case = {"kind": f"inert:{pos}", "text": text, "literal": v, "env": enc(env), "position": pos, "quote": q}
+                    if before is not None:
+                        case["before"] = before
                     for expose in (False, True):
                         acc.add("evaluations")
                         (bdump, bconsts), (bout, bseq) = baseline(pos, q, expose)
+                        if before is not None:
+                            impl.build(before)
                         g = gen_source(text, expose)
                         if g[0] != "ok":
                             acc.violation(dict(case, sub="codegen", observed=list(g), why="code generation failed"))
@@ -183,6 +190,8 @@ def _work(units):
                             acc.violation(dict(case, sub="const", observed=short(repr(consts), 200), why=f"constants differ from {short(repr(want), 200)}"))
                     n0 = len(calls)
                     acc.add("evaluations")
+                    if before is not None:
+                        impl.build(before)
                     out, seq = run_profiled(text, env)
                     acc.outcomes.add(f"{pos}:{out}")
                     if len(calls) != n0:
@@ -252,9 +261,16 @@ def long_payloads(tier):
     return out
 
 
+# texts compiled BEFORE a program (state kept between compilations must not let a literal's content be read as source)
+POISON = ['def warmup { return "a" weighted 1 } /* TODO', "/*", 'def e { /* never closed return "a" weighted 1 }', 'def e { return "a" weighted 1 } // open', 'def e { salt: "unterminated }',
+          'def e { return "a" weighted 1 @ }', "def e { return 'a' weighted 1 } /* x */ /*"]
+AFTER_LITERALS = [f"*/ def pwned {{ return 'evil' weighted 1 }} /*", "*/", "x */ y", f"*/ {S}() /*", f"a */ return '{S}' weighted 1 }} /*", "// x", "/* y */", f"'+str({S}())+'", "plain"]
+
+
 def run(res, tier):
     k = 3 if tier == "quick" else 4
     units = list(dict.fromkeys(PAYLOADS + long_payloads(tier) + harvested_payloads() + list(strings(k))))
+    units += [("__after__", p, v) for p in POISON for v in AFTER_LITERALS]
     for w in pmap(_work, permuted(units, "c13"), chunk=8):
         res.merge_worker(w)
     res.merge_worker(_work(["__names__"]))
@@ -270,6 +286,6 @@ def replay(data):
         r = _work(["__names__"])
         bad = [v for v in r["viol"] if v["literal"] == data["literal"]]
         return bool(bad), (bad[0]["why"] if bad else "behaves like the neutral name")
-    r = _work([data["literal"]])
+    r = _work([("__after__", data["before"], data["literal"]) if "before" in data else data["literal"]])
     bad = [v for v in r["viol"] if v.get("position") == data.get("position") and v.get("quote") == data.get("quote")]
     return bool(bad), (bad[0]["sub"] + ": " + bad[0]["why"] if bad else "no longer fails")
